@@ -714,6 +714,24 @@ fn corpus_scens() -> Vec<(String, Scen)> {
     out
 }
 
+/// the shipped Taconite network with the crate's own example trains (about a thousand links, dozens of passing sidings,
+/// two origin and two destination links per train)
+fn taconite_scen(east: bool, depart: f64) -> Option<Scen> {
+    use altrios_core::train::{speed_limit_train_sim_fwd, speed_limit_train_sim_rev};
+    static NET: std::sync::OnceLock<Option<Vec<Link>>> = std::sync::OnceLock::new();
+    let net = NET.get_or_init(|| {
+        let p = format!("{}/python/altrios/resources/networks/Taconite.yaml", std::env::var("VERIF_REPO").unwrap_or_else(|_| "/repo".into()));
+        guard(|| Network::from_file(p).ok().map(|n| n.0)).flatten()
+    }).as_ref()?;
+    let mut train = if east { speed_limit_train_sim_fwd() } else { speed_limit_train_sim_rev() };
+    train.state.time = uc::S * depart;
+    let oi: Vec<usize> = train.origs.iter().map(|o| o.link_idx.idx()).collect();
+    let di: Vec<usize> = train.dests.iter().map(|o| o.link_idx.idx()).collect();
+    let desc = json!({"network": "python/altrios/resources/networks/Taconite.yaml as shipped in the tree under test", "train": if east { "speed_limit_train_sim_fwd()" } else { "speed_limit_train_sim_rev()" },
+        "origs": oi, "dests": di, "depart_s": depart, "train_length_m": train.state.length.value});
+    Some(Scen { en: EstNet { net: net.clone(), main_fwd: vec![], main_rev: vec![], sidings: vec![] }, east, origs: train.origs.clone(), dests: train.dests.clone(), depart, train, desc, short: false })
+}
+
 fn scenario(ctx: &mut Ctx, r: &mut Rng, big: bool, n_redraw: usize, n_mut: usize) {
     let sc = gen_scen(r, big);
     run_scen(ctx, r, sc, n_redraw, n_mut);
@@ -835,5 +853,13 @@ pub fn run(ctx: &mut Ctx, r: &mut Rng, tier: &str) {
     for i in 0..n {
         let mut rr = r.fork();
         scenario(ctx, &mut rr, tier == "thorough" && i % 3 == 0, n_redraw, n_mut);
+    }
+    for k in 0..(if tier == "thorough" { 6 } else { 2 }) {
+        let mut rr = r.fork();
+        let depart = if k < 2 { 0.0 } else { rr.range(1, 6) as f64 * 1800.0 };
+        match taconite_scen(k % 2 == 0, depart) {
+            Some(sc) => { ctx.count("est.scen.taconite"); run_scen(ctx, &mut rr, sc, 2, 2); }
+            None => ctx.count("est.scen.taconite_unavailable"),
+        }
     }
 }
